@@ -76,13 +76,13 @@ Fixpoint emit_first (j : nat) (at_ : option nat) (labs : list token) (count_labe
     (match at_ with Some a => if Nat.eqb a j then labs else [] | None => [] end)
     ++ subst_body count_label line_labels 1 t :: emit_first (S j) at_ labs count_label line_labels r
   end.
-(* what forRof sends for the block: with a count below one only the labels (when the body has a line
-   for them), otherwise the first iteration with the labels in place, then iterations 2 .. count *)
+(* what forRof sends for the block: with a count below one only the labels (they fall onto what follows the block,
+   whatever the body holds), otherwise the first iteration with the labels in place, then iterations 2 .. count *)
 Definition emit_body (n : nat) (at_ : option nat) (count_label : text) (line_labels : list text)
            (body : list token) : list token :=
   let labs := map (mkT tokText) line_labels in
   match n with
-  | O => match at_ with Some _ => labs | None => [] end
+  | O => labs
   | S n' => emit_first 0 at_ labs count_label line_labels body
             ++ repeat_body n' 2 count_label line_labels body
   end.
